@@ -53,17 +53,18 @@ theorem attemptAddition_heap_eq (r : Nat) (s : State) :
     · rw [hsp.1, h1]
     · simp only []; rw [hsp.1, h1]
 
-/-- the heap after a member's turn: only its pre-selection `to_add_atoms` is cleared -/
-theorem addNext_heap (r : Nat) (s : State) : (addNext r s).heap = s.heap.set r { s.obj r with toAdd := none } := by
+/-- the heap after a member's turn: only its one-shot pre-selections (`to_add_atoms`, `to_delete_label`) are cleared -/
+theorem addNext_heap (r : Nat) (s : State) :
+    (addNext r s).heap = s.heap.set r { s.obj r with toAdd := none, toDelete := none } := by
   have hh := attemptAddition_heap_eq r s
   simp only [addNext, compExchAddLoop]
   rcases hadd : attemptAddition r s with ⟨idx, s1⟩
   rw [hadd] at hh
   simp only [] at hh ⊢
   have key : ∀ s2 : State, s2.heap = s1.heap →
-      (s2.setObj r { s2.obj r with toAdd := none }).heap = s.heap.set r { s.obj r with toAdd := none } := by
+      (clearExch s2 r).heap = s.heap.set r { s.obj r with toAdd := none, toDelete := none } := by
     intro s2 h2
-    simp only [State.setObj, State.obj, h2, hh]
+    simp only [clearExch, State.setObj, State.obj, h2, hh]
     by_cases hlt : r < s.heap.length
     · simp [List.getD_eq_getElem?_getD, hlt]
     · rw [List.set_eq_of_length_le (by simp; omega), List.set_eq_of_length_le (by omega),
@@ -370,9 +371,13 @@ theorem compExchDelLoop_inv (L : List Int) (rs : List Nat) (labs : List Int) (id
   | nil => simpa [compExchDelLoop] using h
   | cons r rs ih =>
     have hLr : (s.obj r).labels = L := hL r (by simp)
-    simp only [compExchDelLoop]
+    have hL' : ∀ (i : Inputs), ∀ r' ∈ rs, (({ clearExch s r with inp := i } : State).obj r').labels = L := by
+      intro i r' h'
+      have e : ({ clearExch s r with inp := i } : State).obj r' = (clearExch s r).obj r' := rfl
+      rw [e, clearExch_obj_labels]; exact hL r' (by simp [h'])
+    rw [compExchDelLoop_cons]
     split
-    · exact ih labs idx s (fun r' h' => hL r' (by simp [h'])) h
+    · exact ih labs idx (clearExch s r) (hL' s.inp) h
     · rename_i hcand
       have hne : setdiff (uniqueLabels (s.obj r).labels) labs ≠ [] := by
         intro hx; rw [hx] at hcand; simp at hcand
@@ -383,8 +388,8 @@ theorem compExchDelLoop_inv (L : List Int) (rs : List Nat) (labs : List Int) (id
       simp only [setdiff, List.mem_filter] at hmem
       have hlnot : l ∉ labs := by simpa using hmem.2
       have hluse : l ∈ L ∧ 0 ≤ l := by rw [← hLr]; exact (uniqueLabels_mem _ _).1 hmem.1
-      apply ih (labs ++ [l]) (idx ++ whereEq (s.obj r).labels l) { s with inp := i }
-      · intro r' h'; exact hL r' (by simp [h'])
+      apply ih (labs ++ [l]) (idx ++ whereEq (s.obj r).labels l) { clearExch s r with inp := i }
+      · exact hL' i
       · rw [hLr]
         refine ⟨?_, ?_, ?_, ?_, ?_⟩
         · rw [List.nodup_append]
@@ -479,7 +484,7 @@ theorem compExch_insertion_call (rs : List Nat) (b : Nat) (s : State) (hinv : In
 theorem compExch_deletion_call (rs : List Nat) (b : Nat) (s : State) (L : List Int)
     (hL : ∀ r ∈ rs, (s.obj r).labels = L) (hdel : ¬ s.inp.draw.1 < b) :
     DelInv L (compExchDelLabels rs s) (compExchDelIdx rs s) ∧
-    (callTree (.compExch rs b) s).2.heap = s.heap ∧
+    HeapStatic s.heap (callTree (.compExch rs b) s).2.heap ∧
     (callTree (.compExch rs b) s).1 = !(compExchDelIdx rs s).isEmpty ∧
     (compExchDelIdx rs s = [] →
       (callTree (.compExch rs b) s).2.atoms = s.atoms ∧ (callTree (.compExch rs b) s).2.ctx = s.ctx) ∧
